@@ -198,9 +198,13 @@ Definition cop_classes (o : cop) : list exn := match o with CCatch cls _ => cls 
 Definition isa_classes (C : list cop) : list exn :=
   nodup (list_eq_dec Nat.eq_dec) (StopIterationC :: ExceptionC :: flat_map cop_classes C).
 
-Definition beh_agree (C : list cop) (b b' : beh) : Prop :=
+(* ... and b_term_fatal only where the parent program sends SIGTERM at all *)
+Definition is_term (o : pop) : bool := match o with PKill KSigTerm => true | _ => false end.
+Definition uses_term (P : list pop) : bool := existsb is_term P.
+
+Definition beh_agree (P : list pop) (C : list cop) (b b' : beh) : Prop :=
   b_out b = b_out b' /\ b_big b = b_big b' /\ b_pick b = b_pick b' /\ b_async b = b_async b' /\
-  b_ret_err b = b_ret_err b' /\ b_unp b = b_unp b' /\
+  b_ret_err b = b_ret_err b' /\ b_unp b = b_unp b' /\ (uses_term P = true -> b_term_fatal b = b_term_fatal b') /\
   forall c, In c (isa_classes C) -> b_isa b c = b_isa b' c.
 
 Lemma existsb_agree : forall (f g : exn -> bool) l, (forall c, In c l -> f c = g c) -> existsb f l = existsb g l.
@@ -209,14 +213,17 @@ Proof.
   intros; apply H; now right.
 Qed.
 
-Lemma lstep_ext : forall P C b b' env c s, beh_agree C b b' -> lstep P C b env c s = lstep P C b' env c s.
+Lemma lstep_ext : forall P C b b' env c s, beh_agree P C b b' -> lstep P C b env c s = lstep P C b' env c s.
 Proof.
-  intros P C b b' env c s (Ho & Hb & Hp & Ha & Hr & Hu & Hi).
+  intros P C b b' env c s (Ho & Hb & Hp & Ha & Hr & Hu & Ht & Hi).
   destruct c; cbn [lstep].
   - (* parent: only pep479 looks at the behaviour *)
     unfold p_step. destruct (p_stat (ps s)); try reflexivity.
-    destruct (nth_error P (p_pc (ps s))) as [op|]; [|reflexivity].
+    destruct (nth_error P (p_pc (ps s))) as [op|] eqn:Eop; [|reflexivity].
     destruct op; try reflexivity; cbn [p_exec]; try (unfold p_recv; now rewrite Hu).
+    { (* PKill sg *) destruct sg; [reflexivity|]. unfold sig_fatal. rewrite Ht; [reflexivity|].
+      unfold uses_term. apply existsb_exists. exists (PKill KSigTerm). split; [|reflexivity].
+      eapply nth_error_In; eauto. }
     destruct (p_result (ps s)) as [[|x]|]; try reflexivity.
     + now rewrite Hr.
     + unfold pep479. destruct x; try reflexivity. rewrite (Hi StopIterationC); [reflexivity|].
@@ -237,7 +244,7 @@ Proof.
   - reflexivity.
 Qed.
 
-Lemma lreach_ext : forall P C b b' s, beh_agree C b b' -> lreach P C b s -> lreach P C b' s.
+Lemma lreach_ext : forall P C b b' s, beh_agree P C b b' -> lreach P C b s -> lreach P C b' s.
 Proof.
   intros P C b b' s Hag Hr. induction Hr as [|s c s' _ IH Hs]; [constructor|].
   eapply lr_step; [exact IH|]. rewrite <- (lstep_ext P C b b' 0 c s Hag). exact Hs.
@@ -257,10 +264,12 @@ Fixpoint all_tables (cls : list exn) : list (list (exn * bool)) :=
   end.
 
 Definition bools : list bool := [true; false].
-Definition all_behs (C : list cop) : list beh :=
-  flat_map (fun o => flat_map (fun t => flat_map (fun big => flat_map (fun pick => flat_map (fun asy => flat_map (fun re => map (fun un =>
-    {| b_out := o; b_isa := assoc_isa t; b_big := big; b_pick := pick; b_async := asy; b_ret_err := re; b_unp := un |})
-    bools) bools) bools) bools) bools) (all_tables (isa_classes C))) [COk; CRaise; CDie].
+Definition term_bits (P : list pop) : list bool := if uses_term P then bools else [true].
+Definition all_behs (P : list pop) (C : list cop) : list beh :=
+  flat_map (fun o => flat_map (fun t => flat_map (fun big => flat_map (fun pick => flat_map (fun asy => flat_map (fun re => flat_map (fun un => map (fun tf =>
+    {| b_out := o; b_isa := assoc_isa t; b_big := big; b_pick := pick; b_async := asy; b_ret_err := re; b_unp := un;
+       b_term_fatal := tf |})
+    (term_bits P)) bools) bools) bools) bools) bools) (all_tables (isa_classes C))) [COk; CRaise; CDie].
 
 Lemma all_tables_complete : forall (f : exn -> bool) cls,
   exists t, In t (all_tables cls) /\ forall c, In c cls -> assoc_isa t c = f c.
@@ -273,11 +282,12 @@ Proof.
       destruct Hc' as [->|Hc']; [contradiction | now apply Hf].
 Qed.
 
-Lemma all_behs_complete : forall C b, exists b', In b' (all_behs C) /\ beh_agree C b b'.
+Lemma all_behs_complete : forall P C b, exists b', In b' (all_behs P C) /\ beh_agree P C b b'.
 Proof.
-  intros C b. destruct (all_tables_complete (b_isa b) (isa_classes C)) as [t [Ht Hf]].
+  intros P C b. destruct (all_tables_complete (b_isa b) (isa_classes C)) as [t [Ht Hf]].
   exists {| b_out := b_out b; b_isa := assoc_isa t; b_big := b_big b; b_pick := b_pick b; b_async := b_async b;
-            b_ret_err := b_ret_err b; b_unp := b_unp b |}.
+            b_ret_err := b_ret_err b; b_unp := b_unp b;
+            b_term_fatal := if uses_term P then b_term_fatal b else true |}.
   split.
   - unfold all_behs. apply in_flat_map. exists (b_out b). split; [destruct (b_out b); cbn; auto|].
     apply in_flat_map. exists t. split; [exact Ht|].
@@ -285,6 +295,10 @@ Proof.
     apply in_flat_map. exists (b_pick b). split; [destruct (b_pick b); cbn; auto|].
     apply in_flat_map. exists (b_async b). split; [destruct (b_async b); cbn; auto|].
     apply in_flat_map. exists (b_ret_err b). split; [destruct (b_ret_err b); cbn; auto|].
-    apply in_map_iff. exists (b_unp b). split; [reflexivity | destruct (b_unp b); cbn; auto].
-  - repeat split; try reflexivity. intros c Hc. cbn. symmetry. now apply Hf.
+    apply in_flat_map. exists (b_unp b). split; [destruct (b_unp b); cbn; auto|].
+    apply in_map_iff. exists (if uses_term P then b_term_fatal b else true). split; [reflexivity|].
+    unfold term_bits. destruct (uses_term P); [destruct (b_term_fatal b); cbn; auto | now left].
+  - repeat split; try reflexivity.
+    + intros Hu. cbn. now rewrite Hu.
+    + intros c Hc. cbn. symmetry. now apply Hf.
 Qed.
